@@ -28,6 +28,9 @@ type cnEvent struct {
 type evlog struct {
 	mu  sync.Mutex
 	evs []cnEvent
+	// exitCh, if set, is signalled when the serve loop enters its exit path (hook point serve.exit);
+	// the hook then lingers briefly so that a request made at that signal overlaps the exit path
+	exitCh chan struct{}
 }
 
 func (e *evlog) add(ev cnEvent) {
